@@ -37,6 +37,10 @@ NON_BRIDGE_SNIPPETS = [
     "type DvAlias = Vec<String>;",
     "#[derive(Debug)]\npub enum DvTopEnum { X = 7, Y }",
     "pub mod ffi_not_a_bridge {\n    pub struct Inner { pub a: u8 }\n    impl Inner { pub fn new_inner() -> Inner { Inner { a: 1 } } }\n}",
+    # modules carrying other crates' look-alike attributes are not Diplomat bridges
+    "#[cxx::bridge]\npub mod dv_cxx_bridge {\n    pub struct DvExtent { pub w: u32, pub h: u32 }\n    pub enum DvMode { A, B }\n}",
+    "#[bridge]\npub mod dv_bare_bridge {{\n    pub struct {T} {{ pub other: u64 }}\n}}",
+    "#[cfg(feature = \"bridge\")]\npub mod dv_cfg_mod {\n    pub enum DvCfgEnum { P, Q }\n}",
 ]
 
 
